@@ -103,7 +103,8 @@ def assign(o, d):
 
 
 def results_of(o):
-    return [o.ocp.sample(o.x, grid='control')[1], o.ocp.sample(o.u, grid='control-')[1]]
+    # (the integrator grid shows the helper states of DirectCollocation with M = 2 as well)
+    return [o.ocp.sample(o.x, grid='control')[1], o.ocp.sample(o.u, grid='control-')[1], o.ocp.sample(o.x, grid='integrator')[1]]
 
 
 def replay(rec):
@@ -137,9 +138,10 @@ def replay(rec):
             sol = quiet(b.ocp.solve)
         except Exception:
             sol = b.ocp.non_converged_solution
-        rb = [np.array(sol.sample(b.x, grid='control')[1]).reshape(-1), np.array(sol.sample(b.u, grid='control-')[1]).reshape(-1)]
+        rb = [np.array(sol.sample(b.x, grid='control')[1]).reshape(-1), np.array(sol.sample(b.u, grid='control-')[1]).reshape(-1),
+              np.array(sol.sample(b.x, grid='integrator')[1]).reshape(-1)]
         res = []
-        for name, x, y in zip(('x', 'u'), ra, rb):
+        for name, x, y in zip(('x', 'u', 'xi'), ra, rb):
             ok = len(x) == len(y) and np.allclose(x, y, rtol=1e-6, atol=1e-6)
             res.append(('C19.a:' + name, 'ok' if ok else 'mismatch', 'to_function %s vs imperative %s (data %s)' % (np.round(x, 6).tolist(), np.round(y, 6).tolist(), data)))
         return {'results': res, 'error': None}
